@@ -138,12 +138,13 @@ class Path(object):
         return 'Path<%s %r pc=%d>' % (self.kind, self.value, len(self.pc))
 
 
-def explore(fn, assumptions=(), max_paths=4000, catch=Exception):
-    """run fn() on every feasible path.  Returns list of Path; kind 'ok' (value = result) or 'exc' (value = exception).
-    Leak is never swallowed: it propagates (the obligation is inconclusive)."""
-    out = []
+def explore_iter(fn, assumptions=(), max_paths=4000, catch=Exception):
+    """generator: run fn() on every feasible path, yielding one Path at a time (kind 'ok' with value = result, or 'exc' with
+    value = exception).  The consumer may stop early.  Leak is never swallowed: it propagates (the obligation is inconclusive).
+    The engine context is re-established from the decision prefix at each path, so the consumer is free to use its own solvers
+    between two paths."""
+    n = 0
     stack = [[]]
-    CTX.active = True
     try:
         while stack:
             prefix = stack.pop()
@@ -164,13 +165,19 @@ def explore(fn, assumptions=(), max_paths=4000, catch=Exception):
                 kind, d, forked = tr[k]
                 if forked:
                     stack.append([(x[0], x[1]) for x in tr[:k]] + [('b', not d)])
-            out.append(Path(list(CTX.pc), r[0], r[1], [(x[0], x[1]) for x in tr]))
-            if len(out) > max_paths:
+            n += 1
+            if n > max_paths:
                 raise Leak('more than %d paths' % max_paths)
+            path = Path(list(CTX.pc), r[0], r[1], [(x[0], x[1]) for x in tr])
+            CTX.solver = None
+            yield path
     finally:
-        CTX.active = False
         CTX.solver = None
-    return out
+
+
+def explore(fn, assumptions=(), max_paths=4000, catch=Exception):
+    "all feasible paths of fn() as a list (see explore_iter)"
+    return list(explore_iter(fn, assumptions, max_paths, catch))
 
 
 def run1(fn, assumptions=()):
@@ -410,6 +417,12 @@ class SymInt(object):
         x & ((1 << x.bit_length()) - 1) - which is x - is recognised (Bits(int) sizes itself that way)"""
         if self.lo < 0:
             raise Leak('bit_length of maybe-negative symbolic')
+        if self.w > MAXSHIFT_CASES:
+            # wide value: an ite-chain with hundreds of arms helps nobody - fork on the length (at most w+1 paths)
+            for k in range(self.w, 0, -1):
+                if self >= (1 << (k - 1)):
+                    return k
+            return 0
         r = 0
         for k in range(1, self.w + 1):
             r = ite(self >= (1 << (k - 1)), k, r)
@@ -417,8 +430,20 @@ class SymInt(object):
             r = SymInt(r.n, r.lo, r.hi, None, ('bitlen', self.n.id))
         return r
 
-    def to_bytes(self, *a, **k):
-        raise Leak('int.to_bytes of symbolic')
+    def to_bytes(self, length=1, byteorder='big', *, signed=False):
+        if signed or self.lo < 0:
+            raise Leak('int.to_bytes of a signed / maybe-negative symbolic')
+        length = builtins.int(length)
+        if self.hi >= (1 << (8 * length)):
+            if self >= (1 << (8 * length)):
+                raise OverflowError('int too big to convert')
+        n = self.n if self.w >= 8 * length else ir.zext(self.n, 8 * length)
+        bs = [from_n(ir.slc(n, 8 * i, 8)) for i in range(length)]
+        if byteorder == 'big':
+            bs.reverse()
+        elif byteorder != 'little':
+            raise ValueError("byteorder must be either 'little' or 'big'")
+        return SymBytes(bs)
 
     def __repr__(self):
         return 'SymInt<%d..%d #%d>' % (self.lo, self.hi, self.n.id)
@@ -618,7 +643,7 @@ def _shl(a, n):
             raise ValueError('negative shift count')
     lo, hi = max(n.lo, 0), n.hi
     if hi - lo + 1 > MAXSHIFT_CASES:
-        raise Leak('symbolic shift amount with %d cases' % (hi - lo + 1))
+        return _shl(a, _Const(concretize(n)))        # too many amounts for one ite-chain: fork on the amount (solver-driven)
     r = a << hi if not _isc(a) else a.v << hi
     for k in range(hi - 1, lo - 1, -1):
         r = ite(n == k, (a << k) if not _isc(a) else (a.v << k), r)
@@ -654,7 +679,7 @@ def _shr(a, n):
     if not _isc(a) and not a.signed:
         hi = min(hi, a.w)        # every amount >= width gives 0
         if hi - lo + 1 > MAXSHIFT_CASES:
-            raise Leak('symbolic shift amount with %d cases' % (hi - lo + 1))
+            return _shr(a, _Const(concretize(n)))
         r = a >> hi
         for k in range(hi - 1, lo - 1, -1):
             r = ite(n == k, a >> k, r)
@@ -662,7 +687,7 @@ def _shr(a, n):
             r = ite(n >= hi, 0, r)
         return r
     if hi - lo + 1 > MAXSHIFT_CASES:
-        raise Leak('symbolic shift amount with %d cases' % (hi - lo + 1))
+        return _shr(a, _Const(concretize(n)))
     av = a.v if _isc(a) else a
     r = av >> hi
     for k in range(hi - 1, lo - 1, -1):
